@@ -12,7 +12,7 @@ RULE = ('1-2 consumer probes, 1-2 target probes; macros (plain and scope-like na
         'after their uses across several parse_config calls (some with skip_unknown on) and programmatic binds, some bound to evaluated references; '
         'constants with shared dotted suffixes defined in and out of interactive mode (valid, invalid, duplicate names), '
         '%abbreviations resolved at parse time (unique / ambiguous / none); consuming calls; finalize under a random '
-        'active scope with unbound / unevaluated macro references. non-trivial = a macro is used before its (last) '
+        'active scope with unbound / unevaluated macro references (also inside tuples that are dict keys); a files family: macros bound in included files, the same file included several times (diamonds, later parse calls) with rebinds in between. non-trivial = a macro is used before its (last) '
         'definition and a call observes it, or an abbreviation of a constant is delivered; distinct = canonical ops')
 TRUSTED_BASE = ['Lean 4.33 kernel', 'axioms ⊆ {propext, Classical.choice, Quot.sound}', 'JSON glue (Gin/Drv)',
                 'harness gindom.py', 'constant identity is observed through harness objects whose copies are distinguishable']
@@ -24,6 +24,7 @@ EXPLANATION = ('Lean theorems about the evaluator (a macro is a scoped call of g
                'differential run of definition/use histories, call logs and finalize under scopes.')
 
 MACROS = ['m1', 'm2', 'a', 'a/b', 'lr', 'include', 'import', 'from']   # the last three: statement keywords are macro names like any other;   # 'a' and 'a/b': a macro named like a scope prefix of another
+TUPLE_KEY_MACROS = ['tk1', 'tk2', 'k/tk']   # used inside tuples that are dict keys: bound to hashable values only (no prefix of 'k/tk' is a macro of MACROS: '%a/tk' would read the value of macro 'a')
 CONSTS = ['X', 'd.X', 'e.d.X', 'Y', 'q.Y', 'Z']
 
 
@@ -92,6 +93,27 @@ def gen_case(rng):
           ops.append({'op': 'bind', 'scope': mk, 'sel': 'gin.macro', 'arg': 'value', 'val': {'s': mv},
                       '_form': 'macro_text', 'block': False})
         val = {'d': [[{'macro': 'key1'}, {'s': 'one'}], [{'macro': 'key2'}, val], [{'s': 'plain'}, 3]]}
+      if rng.random() < 0.25:
+        # a macro inside a tuple that is the key of a dict (possibly below a list): a use like any other - evaluated
+        # when the consumer is called, and looked at when the configuration is finalized. These macros are bound to
+        # hashable values only (before or after the use), or never bound at all
+        mk = rng.choice(TUPLE_KEY_MACROS)
+        kleaf = {'macro': mk}
+        define = {'op': 'bind', 'scope': mk, 'sel': 'gin.macro', 'arg': 'value',
+                  'val': rng.choice([{'s': 'alpha'}, {'s': 'beta'}, 7, None, {'t': [1, 2]}]),
+                  '_form': 'macro_text', 'block': False}
+        when = rng.choice(['before', 'after', 'never', 'never'])
+        if when == 'before':
+          ops.append(define)
+        val = {'d': [[{'t': rng.choice([[kleaf, 1], [{'s': 'k'}, kleaf], [{'t': [kleaf]}, 2]])},
+                      rng.choice([{'s': 'a'}, val])]]}
+        if rng.random() < 0.3:
+          val = {'l': [val, 0]}
+        if when == 'after':
+          ops.append({'op': 'bind', 'scope': '/'.join(rng.choice(scopes)), 'sel': c['_selector'], 'arg': rng.choice(cls),
+                      'val': val, '_form': 'text', 'block': False})
+          ops.append(define)
+          continue
       ops.append({'op': 'bind', 'scope': '/'.join(rng.choice(scopes)), 'sel': c['_selector'], 'arg': rng.choice(cls),
                   'val': val, '_form': 'text', 'block': False})
     elif r < 0.72:  # constant definition (valid / invalid / duplicate / suffix collision)
@@ -124,21 +146,140 @@ def gen_case(rng):
       c = rng.choice(consumers)
       cls = [n for n, k in G.param_classes(c).items() if k == 'valid']
       if cls:
+        uneval = {'ref': [[rng.choice(['m1', 'm1', 'm2', 'a/b'])], 'gin.macro', False]}
         ops.append({'op': 'bind', 'scope': '', 'sel': c['_selector'], 'arg': rng.choice(cls),
-                    'val': {'ref': [['m1'], 'gin.macro', False]}, '_form': 'text', 'block': False})
+                    'val': rng.choice([uneval, uneval, {'d': [[{'t': [{'s': 'k'}, uneval]}, {'s': 'a'}]]},
+                                       {'l': [{'d': [[{'t': [uneval, 1]}, 2]]}]}]),
+                    '_form': 'text', 'block': False})
     ops.append({'op': 'finalize', '_enter': G.gen_enter(rng, rng.choice(scopes))})
     ops.append({'op': 'locked'})
   return {'dom': 'gin', 'ops': ops, '_uses_const': uses_const}
 
 
+FILE_MACROS = ['rate', 'm1', 'low/rate', 'a/b']
+USE_SEL = 'c.use'
+
+
+def gen_files_case(rng):
+  """Macros bound in included files: a few leaf files bind macros, a few files include leaf files (in any order, the
+  same one more than once) and rebind the macros before / between / after, and one to three parse calls include any of
+  these files, rebind macros and bind the parameters of a consumer to `%macro`; consuming calls between and after the
+  parse calls. Every binding statement carries a value of its own, so the call shows which one was applied last."""
+  import gen_stmts as S
+  ops = [target_reg(USE_SEL, 0)]
+  macros = rng.sample(FILE_MACROS, rng.randint(1, 2))
+  counter = [0]
+  files, stmts_of = {}, {}
+
+  def bind_macro(b):
+    counter[0] += 1
+    S.add_binding(b, '', rng.choice(macros), '', counter[0])
+
+  def include(b, name):
+    b.add("include '" + name + "'", {'k': 'include', 'name': name, 'file': stmts_of[name]})
+
+  leaves = ['base%d.gin' % i for i in range(rng.randint(1, 2))]
+  for name in leaves:
+    b = S.Builder()
+    for _ in range(rng.randint(1, 2)):
+      bind_macro(b)
+    files[name], stmts_of[name] = b.text(), b.stmts
+  mids = ['mid%d.gin' % i for i in range(rng.randint(1, 3))]
+  for name in mids:
+    b = S.Builder()
+    for _ in range(rng.randint(1, 4)):
+      if rng.random() < 0.6:
+        include(b, rng.choice(leaves))
+      else:
+        bind_macro(b)
+    files[name], stmts_of[name] = b.text(), b.stmts
+
+  def call():
+    return {'op': 'ecall', 'sel': USE_SEL, 'enter': G.gen_enter(rng, rng.choice([[], ['a'], ['low']])), 'args': [],
+            'kwargs': [], '_target': 0}
+  used = False
+  for k in range(rng.randint(1, 3)):
+    b = S.Builder()
+    for _ in range(rng.randint(2, 5)):
+      r = rng.random()
+      if r < 0.55:
+        include(b, rng.choice(mids + leaves))
+      elif r < 0.75:
+        bind_macro(b)
+      else:
+        used = True
+        S.add_binding(b, '', USE_SEL, rng.choice(['p', 'q']), {'rawmacro': rng.choice(macros)})
+    if not used:
+      used = True
+      S.add_binding(b, '', USE_SEL, 'p', {'rawmacro': macros[0]})
+    entry = rng.choice(['config', 'config', 'file'])
+    text = b.text()
+    if entry == 'file':
+      top = 'top%d.gin' % k
+      ops.append({'op': 'parse', 'file': top, 'skip': {'k': 'no'}, 'stmts': b.stmts, '_text': text,
+                  '_files': dict(files, **{top: text}), '_regmods': {}})
+    else:
+      ops.append({'op': 'parse', 'file': None, 'skip': {'k': 'no'}, 'stmts': b.stmts, '_text': text,
+                  '_files': dict(files), '_regmods': {}})
+    if rng.random() < 0.6:
+      ops.append(call())
+  ops += [call(), {'op': 'log'}, {'op': 'config'}]
+  return {'dom': 'gin', 'ops': ops, '_kind': 'files', '_uses_const': False}
+
+
+def _files_oracle(case, impl):
+  """The value a consuming call receives for a parameter bound to `%name` is the value of the last `name = value`
+  statement in statement order (include statements standing for the statements of their file)."""
+  latest, uses, expect = {}, {}, []
+
+  def apply(stmts):
+    for st in stmts:
+      if st['k'] == 'include':
+        apply(st['file'])
+      elif st['k'] == 'bind' and st['sel'] == 'gin.macro' or (st['k'] == 'bind' and not st['arg']):
+        name = (st['scope'] + '/' if st['scope'] else '') + st['sel']
+        latest[name] = st['val']
+      elif st['k'] == 'bind' and st['sel'] == USE_SEL:
+        uses[st['arg']] = st['val']['rawmacro']
+  for op, res in zip(case['ops'], impl['out']):
+    if op['op'] == 'parse':
+      if 'ok' not in res:
+        return f'a parse call over existing files and well-formed statements failed: {res}'
+      apply(op['stmts'])
+    elif op['op'] == 'ecall':
+      missing = [m for m in uses.values() if m not in latest]
+      if missing:
+        if 'ok' in res:
+          return f'a call succeeded although macro(s) {missing} were never bound'
+        continue
+      if 'ok' not in res:
+        return f'a consuming call failed although every macro it uses is bound: {res}'
+      expect.append({a: latest[m] for a, m in uses.items()})
+    elif op['op'] == 'log' and 'ok' in res:
+      events = [ev for sel, evs in res['ok'] if sel == USE_SEL for ev in evs]
+      if len(events) != len(expect):
+        return f'{len(expect)} consuming calls succeeded but the consumer ran {len(events)} times'
+      for i, (ev, want) in enumerate(zip(events, expect)):
+        got = dict((k, v) for k, v in ev[1])
+        for a, v in want.items():
+          if got.get(a) != v:
+            return (f'consuming call {i}: parameter {a} (bound to a macro) received {got.get(a)!r}, the most recent '
+                    f'binding of that macro in statement order is {v!r}')
+  return None
+
+
 def gen_cases(rng, tier, boost=1):
   n = (700 if tier == 'quick' else 20000) * boost
-  for _ in range(n):
+  for i in range(n):
+    if i % 5 == 4:
+      yield gen_files_case(rng)
     yield gen_case(rng)
 
 
 def oracle(case, impl):
   """Independent statements: constant rules, %-resolution, finalize verdict, store immutability under calls."""
+  if case.get('_kind') == 'files':
+    return _files_oracle(case, impl)
   why = refmodel.check_history(case, impl, {'constant', 'finalize', 'locked', 'interactive'})
   if why:
     return why
@@ -160,6 +301,14 @@ def oracle(case, impl):
 
 
 def nontrivial(case, impl):
+  if case.get('_kind') == 'files':
+    def names(stmts):
+      for st in stmts:
+        if st['k'] == 'include':
+          yield st['name']
+          yield from names(st['file'])
+    incl = [n for op in case['ops'] if op['op'] == 'parse' for n in names(op['stmts'])]
+    return len(incl) > len(set(incl)) and any(o['op'] == 'ecall' and 'ok' in r for o, r in zip(case['ops'], impl['out']))
   seen_use = set()
   late = False
   for op in case['ops']:
